@@ -125,6 +125,7 @@ struct Caps {
     bool sig[32] = { false };               // ALL_SIGS index -> both stacks have it
     bool ident_srv[16] = { false }, ident_cli[16] = { false };
     sslKeys_t *mx_srv[16] = { 0 }, *mx_cli[16] = { 0 }, *mx_cli_noid = nullptr, *mx_srv_psk = nullptr, *mx_cli_psk = nullptr;
+    bool rfc5746 = false;                   // MatrixSSL server answers the renegotiation_info SCSV (needs USE_REHANDSHAKING); else OpenSSL clients need SSL_OP_LEGACY_SERVER_CONNECT
     std::string text;                       // human-readable table incl. exclusions and reasons
 };
 static Caps G;
@@ -239,6 +240,7 @@ struct Case {
     bool os_ems;
     bool os_tickets;
     bool os_etm;
+    bool os_send_root;      // OpenSSL appends the self-signed root to its Certificate message (RFC 5246 7.4.2: MAY be omitted)
     int os_max_frag;        // 0 default
     size_t chunk, piece;    // MatrixSSL receive chunking / SentData piece size
     bool mx_closes_first;
@@ -250,12 +252,12 @@ struct Case {
         const SuiteD &s = ALL_SUITES[suite];
         std::string p;
         for (int k = 0; k < 2; k++) { p += k ? " | " : ""; for (auto &m : sched[k]) p += fmt("%s%zu ", m.first ? "O>M:" : "M>O:", m.second); }
-        return fmt("%s ver=%s suite=%s srv-id=%s cauth=%s group=%s%s ssig=%s csig=%s resume=%s ems(mx=%d,ossl=%d) ossl(tickets=%d,etm=%d,maxfrag=%d) chunk=%zu piece=%zu close-first=%s keyupd=%d payloads=[%s] eseed=%llu",
+        return fmt("%s ver=%s suite=%s srv-id=%s cauth=%s group=%s%s ssig=%s csig=%s resume=%s ems(mx=%d,ossl=%d) ossl(tickets=%d,etm=%d,maxfrag=%d,sends-root=%d) chunk=%zu piece=%zu close-first=%s keyupd=%d payloads=[%s] eseed=%llu",
                    mx_client ? "MatrixSSL-client/OpenSSL-server" : "OpenSSL-client/MatrixSSL-server", ver_name(ver), s.std_name,
                    sident >= 0 ? ALL_IDENTS[sident].name : "psk", cauth ? ALL_IDENTS[cident].name : "off", group >= 0 ? ALL_GROUPS[group].name : "-",
                    hrr_first >= 0 ? fmt("(HRR from %s)", ALL_GROUPS[hrr_first].name).c_str() : "",
                    ssig >= 0 ? ALL_SIGS[ssig].name : "default", csig >= 0 ? ALL_SIGS[csig].name : "default", resume_name[resume], mx_ems, (int) os_ems,
-                   (int) os_tickets, (int) os_etm, os_max_frag, chunk, piece, mx_closes_first ? "MatrixSSL" : "OpenSSL", key_update, p.c_str(), (unsigned long long) eseed);
+                   (int) os_tickets, (int) os_etm, os_max_frag, (int) os_send_root, chunk, piece, mx_closes_first ? "MatrixSSL" : "OpenSSL", key_update, p.c_str(), (unsigned long long) eseed);
     }
 };
 
@@ -302,7 +304,7 @@ static size_t draw_size(Tape &t) {
     case 5: return 16385;
     case 6: return 40000;
     case 7: return 1 + t.below(20000);
-    case 8: return 0;
+    case 8: return 2 + t.below(6);   // (0 is not in the domain: matrixSslEncodeToOutdata/GetWritebuf reject empty writes and SSL_write(0) sends nothing)
     default: return 1 + t.below(300);
     }
 }
@@ -351,8 +353,10 @@ static Case draw_case(Tape &t) {
     // extended master secret: (mx, ossl) pairs in which neither side *requires* what the other refuses
     static const int ems_pairs[5][2] = { { 0, 1 }, { 1, 1 }, { 0, 0 }, { -1, 1 }, { -1, 0 } };
     unsigned e = (unsigned) t.below(5); k.mx_ems = ems_pairs[e][0]; k.os_ems = ems_pairs[e][1] != 0;
+    if (!k.mx_client && k.mx_ems < 0) k.mx_ems = 0;   // a MatrixSSL *server* has no "disable" setting (matrixSslNewServerSession only honours > 0 = require)
     k.os_tickets = k.resume == R_TICKET ? true : k.resume == R_SID ? false : t.coin();
     k.os_etm = !t.chance(1, 4);
+    k.os_send_root = t.chance(1, 4);
     k.os_max_frag = t.chance(1, 4) ? (int) t.pick(std::vector<int>{ 512, 1024, 4096, 16383 }) : 0;
     static const size_t chunks[] = { (size_t) -1, 1, 5, 64, 1000, 16384, 0 };
     k.chunk = chunks[t.below(7)]; if (k.chunk == 0) k.chunk = 1 + t.below(3000);
@@ -419,6 +423,28 @@ struct Link {
     }
     void settle(int max = 400) { for (int i = 0; i < max; i++) if (!step()) break; }
 };
+
+// Does the MatrixSSL server implement RFC 5746?  (OpenSSL 3.0 clients refuse servers that do not, unless told otherwise; that is
+// an OpenSSL policy, so it belongs to the capability table and must not be read as a MatrixSSL wire defect.)
+static void probe_rfc5746() {
+    int v = G.ver[TLS12] ? TLS12 : TLS11;
+    if (!G.ver[v]) return;
+    Case k{}; k.chunk = k.piece = (size_t) -1;
+    for (int si : G.suites[v]) {
+        const SuiteD &sd = ALL_SUITES[si];
+        if (sd.kx != KX_ECDHE_ECDSA && sd.kx != KX_ECDHE_RSA && sd.kx != KX_RSA) continue;
+        int id = sd.kx == KX_ECDHE_ECDSA ? 0 : 1;
+        OsslCtxConfig oc; oc.min_version = oc.max_version = wire_of(v); oc.cipher_list = sd.ossl; oc.legacy_server_connect = true;
+        std::string err; auto ctx = OsslCtx::create(oc, &err);
+        if (!ctx) continue;
+        Link L; L.k = &k; Config mc; mc.client = false; mc.versions = { v }; mc.keys = G.mx_srv[id];
+        vfh_entropy_reset(7); c10::ossl_seed(7);
+        if (L.M.open(mc) < 0) continue;
+        L.O.reset(new OsslConn(*ctx)); L.O->handshake(); L.settle();
+        if (L.O->handshake_done() && L.M.hs_complete()) { G.rfc5746 = L.O->secure_renegotiation(); G.text += fmt("rfc5746 renegotiation_info answered by MatrixSSL server: %d%s\n", (int) G.rfc5746, G.rfc5746 ? "" : " (USE_REHANDSHAKING is off; OpenSSL clients run with SSL_OP_LEGACY_SERVER_CONNECT)"); return; }
+    }
+    G.text += "rfc5746 probe handshake did not complete; assuming not supported\n";
+}
 
 static std::string alerts_str(const OsslConn &o) {
     std::string s;
@@ -487,7 +513,8 @@ static void prop(Tape &t, Ctx &c) {
         oc.verify_host = "localhost";
     }
     oc.sni = "localhost";
-    oc.tickets = k.os_tickets; oc.ems = k.os_ems; oc.etm = k.os_etm; oc.max_send_fragment = k.os_max_frag;
+    oc.legacy_server_connect = !G.rfc5746;
+    oc.auto_chain = k.os_send_root; oc.tickets = k.os_tickets; oc.ems = k.os_ems; oc.etm = k.os_etm; oc.max_send_fragment = k.os_max_frag;
     std::string oerr;
     std::unique_ptr<OsslCtx> octx = OsslCtx::create(oc, &oerr);
     VF_CHECK(octx != nullptr, "harness-openssl-config-refused", "OpenSSL refused a configuration that the capability table admits: %s; %s", oerr.c_str(), desc.c_str());
@@ -567,6 +594,7 @@ static void prop(Tape &t, Ctx &c) {
                 else VF_CHECK(g_cb_calls >= 1 && g_cb_last_alert == 0, "client-auth-not-performed", "MatrixSSL server certificate callback calls=%d alert=%d; %s", g_cb_calls, g_cb_last_alert, desc.c_str());
             }
         }
+        if (k.ver != TLS13 && G.rfc5746) VF_CHECK(L.O->secure_renegotiation(), "renegotiation-info-missing", "MatrixSSL implements RFC 5746 but OpenSSL saw no renegotiation_info; %s", desc.c_str());
         bool hrr = L.O->saw_hello_retry();
         if (k.ver == TLS13 && k.hrr_first >= 0) VF_CHECK(hrr, "hello-retry-expected", "an HRR was expected (first key_share on %s, server only has %s) but none was seen (trace=%s); %s", ALL_GROUPS[k.hrr_first].name, g->name, L.O->hs_trace().c_str(), desc.c_str());
         std::string grp = L.O->group_name();
@@ -647,6 +675,7 @@ namespace vf { void vf_global_init(int, char **) {
     mxh::global_open();
     c10::ossl_global_init();
     build_caps();
+    probe_rfc5746();
     g_keyupdate = getenv("C10_KEYUPDATE") != nullptr;
     if (getenv("C10_PRINT_CAPS")) fprintf(stderr, "%s", G.text.c_str());
 } }
